@@ -202,3 +202,42 @@ func Check(c *Case) (o core.Outcome) {
 
 func TestRapid(t *testing.T)  { core.RunRapid(t, ID, Gen, Check) }
 func TestReplay(t *testing.T) { core.RunReplay(t, ID, &Case{}, Check) }
+
+// TestManyTiles: grids of more than 256 tiles (tile indices that no longer fit one byte; "any
+// number of tiles per axis"), constructed inside the class where the unchanged tree holds: tile
+// sizes that are multiples of 2^levels and all tile origins inside the first 64x64 code-block.
+func TestManyTiles(t *testing.T) {
+	g := rapid.Custom(func(t *rapid.T) *Case {
+		lv := rapid.IntRange(0, 2).Draw(t, "levels")
+		m := 1 << uint(lv)
+		side := func(label string) (ts, n int) {
+			ts = m * rapid.IntRange(1, max(1, 4/m)).Draw(t, label+"k")
+			maxTiles := (63 / ts) + 1 // (tiles-1)*ts <= 63
+			tiles := rapid.IntRange(min(12, maxTiles), maxTiles).Draw(t, label+"tiles")
+			n = tiles*ts - rapid.IntRange(0, ts-1).Draw(t, label+"cut")
+			return
+		}
+		tw, w := side("x")
+		th, h := side("y")
+		for ((w+tw-1)/tw)*((h+th-1)/th) <= 256 { // force the index past one byte
+			if (w+tw-1)/tw < 63/tw+1 {
+				w += tw
+			} else if (h+th-1)/th < 63/th+1 {
+				h += th
+			} else {
+				break
+			}
+		}
+		im := &gen.Image{W: w, H: h, C: rapid.SampledFrom([]int{1, 1, 3}).Draw(t, "c"), P: rapid.SampledFrom([]int{8, 12, 16}).Draw(t, "P"), Class: "noise", Seed: rapid.Uint64().Draw(t, "seed")}
+		cfg := &j2k.Config{Levels: lv, CBW: 64, CBH: 64, Prog: rapid.IntRange(0, 4).Draw(t, "prog"), Layers: rapid.SampledFrom([]int{1, 1, 2}).Draw(t, "layers"),
+			MCT: rapid.Bool().Draw(t, "mct"), TileW: tw, TileH: th}
+		return &Case{Img: im, Cfg: cfg}
+	})
+	core.RunSharded(t, ID, 16, 400, g, func(c *Case) core.Outcome {
+		o := Check(c)
+		if ((c.Img.W+c.Cfg.TileW-1)/c.Cfg.TileW)*((c.Img.H+c.Cfg.TileH-1)/c.Cfg.TileH) > 256 {
+			o.Label("tiles>256")
+		}
+		return o
+	})
+}
